@@ -43,6 +43,12 @@ def directed_catfc(test):
             cells = sorted({c for ev in syn for c, _ in ev})
             for obs in ([], [[cells[0], 0]], [[cells[0], 0], [cells[-1], 1], [cells[0], 2]]):
                 out.append(('catfc_test', dict(test=test, grid=g, synthetic=syn, observed=obs, source='list')))
+            if test == 'pseudolikelihood_test':
+                # observed events in cells no synthetic catalog sampled (the 'undersampled' path), with and without events left
+                free = [k for k in range(4) if k not in cells]
+                if free:
+                    out.append(('catfc_test', dict(test=test, grid=g, synthetic=syn, observed=[[cells[0], 0], [free[0], 1]], source='list')))
+                    out.append(('catfc_test', dict(test=test, grid=g, synthetic=syn, observed=[[free[0], 1]], source='list')))
         return out
     return staticmethod(fam)
 
@@ -545,17 +551,23 @@ def pl_case(apply_filters):
                                        region=c.obj(None, name='region'))
             obs_counts = c.arr('observed_spatial_counts', 'float64', n=n0)
             obs = c.obj(None, event_count=c.int('n_obs_events'), name='obs', spatial_counts=Lam(lambda *a, **k: obs_counts))
+            # the score of a catalog with an event in a cell of rate 0 is -inf (assumed float semantics of the callee): the
+            # 'undersampled' path of the test is under contract
+            c.ctx.ghost['plh_minus_inf'] = True
             return dict(forecast=fo, observed_catalog=obs, verbose=False, _v=dict(J=J, rates=rates, E=E, obs=obs_counts, n0=n0))
 
         def requires(c, forecast, observed_catalog, verbose, _v):
-            rates, obs, n0 = _v['rates'], _v['obs'], _v['n0']
-            i = z3.Int('i!rq')
+            rates, obs, n0, J_ = _v['rates'], _v['obs'], _v['n0'], _v['J']
+            i, s_ = z3.Int('i!rq'), z3.Int('s!rq')
+            key_ = (lambda k: FILT(SRC(k))) if apply_filters else (lambda k: SRC(k))
             n_ev = observed_catalog.fields['event_count']
             return [n_ev >= 0,
                     z3.ForAll([i], z3.Implies(z3.And(0 <= i, i < n0), rates.f((i,)) >= 0), patterns=[rates.f((i,))]),
                     z3.ForAll([i], z3.Implies(z3.And(0 <= i, i < n0), obs.f((i,)) >= 0), patterns=[obs.f((i,))]),
-                    # observed events only in cells some synthetic catalog sampled (the 'undersampled' path is bounded only)
-                    z3.ForAll([i], z3.Implies(z3.And(0 <= i, i < n0, obs.f((i,)) > 0), rates.f((i,)) > 0), patterns=[obs.f((i,))]),
+                    # the expected rates are the per-cell mean of the synthetic catalogs' counts (C13): a cell of rate 0 holds no
+                    # synthetic event.  (Observed events may lie in such cells: the 'undersampled' path.)
+                    z3.ForAll([s_, i], z3.Implies(z3.And(0 <= s_, s_ < J_, 0 <= i, i < n0, rates.f((i,)) == 0), SCF(key_(s_), i) == 0),
+                              patterns=[SCF(key_(s_), i)]),
                     # gridding counts every event once (C03): a non-empty observed catalog has a non-empty grid
                     z3.Implies(n_ev > 0, _rsum(lambda k: obs.f((k,)), n0) > 0)]
 
@@ -564,14 +576,40 @@ def pl_case(apply_filters):
             key = (lambda k: FILT(SRC(k))) if apply_filters else (lambda k: SRC(k))
             n_ev = observed_catalog.fields['event_count']
             if r is None:
-                yield 'no result only for an empty observed catalog', n_ev == 0
+                i = z3.Int('i!en')
+                unders = z3.Exists([i], z3.And(0 <= i, i < n0, to_real(obs.f((i,))) != 0, to_real(rates.f((i,))) == 0))
+                kept0 = _rsum(lambda a: z3.If(to_real(rates.f((a,))) != 0, to_real(obs.f((a,))), z3.RealVal(0)), n0)
+                for sel in (c.ctx.ghost.get('selections') or {}).values():
+                    sl, m = sel['sel'], sel['m']
+                    c.ctx.fact(_rsum(lambda j: to_real(obs.f((sl(j),))), m) == kept0, lemma=True)
+                    c.I.used_lemmas.add('L4.count_over_selection')
+                yield 'no result only for an empty observed catalog, or when every observed event lies in a cell of rate 0', \
+                    z3.Or(n_ev == 0, z3.And(unders, kept0 == 0))
                 return
             yield 'returns a result object', z3.BoolVal(isinstance(r, Obj))
             yield 'a result is returned only for a non-empty observed catalog', n_ev != 0
             st, os_, q, td = (r.fields.get(k) for k in ('status', 'observed_statistic', 'quantile', 'test_distribution'))
-            yield 'status normal', z3.BoolVal(st == 'normal')
-            yield 'observed statistic == pseudo-likelihood of the observed catalog', \
-                to_real(os_) == plh_spec(lambda a: obs.f((a,)), rates, E, n0)
+            i = z3.Int('i!en')
+            unders = z3.Exists([i], z3.And(0 <= i, i < n0, to_real(obs.f((i,))) != 0, to_real(rates.f((i,))) == 0))
+            yield 'status is normal or undersampled', z3.BoolVal(st in ('normal', 'undersampled'))
+            if st == 'normal':
+                yield 'status normal only if no observed event lies in a cell of rate 0', z3.Not(unders)
+                yield 'observed statistic == pseudo-likelihood of the observed catalog', \
+                    to_real(os_) == plh_spec(lambda a: obs.f((a,)), rates, E, n0)
+            elif st == 'undersampled':
+                yield 'status undersampled only if an observed event lies in a cell of rate 0', unders
+                # the statistic is recomputed over the cells of non-zero rate (sum over the mask selection == masked sum over all
+                # cells: L4_sum_over_selection), with the original expected count
+                kept = lambda a: z3.If(to_real(rates.f((a,))) != 0, to_real(obs.f((a,))), z3.RealVal(0))
+                term = lambda a: z3.If(to_real(obs.f((a,))) != 0, to_real(obs.f((a,))) * LOG(to_real(rates.f((a,)))), z3.RealVal(0))
+                for sel in (c.ctx.ghost.get('selections') or {}).values():
+                    sl, m = sel['sel'], sel['m']
+                    for fn in (term, lambda a: to_real(obs.f((a,)))):
+                        c.ctx.fact(_rsum(lambda j: fn(sl(j)), m) == _rsum(lambda a: z3.If(to_real(rates.f((a,))) != 0, fn(a), z3.RealVal(0)), n0), lemma=True)
+                    c.I.used_lemmas.add('L4.count_over_selection')
+                yield 'a result is returned only if events remain in cells of non-zero rate', _rsum(kept, n0) != 0
+                yield 'observed statistic == pseudo-likelihood over the cells of non-zero rate (expected count unchanged)', \
+                    to_real(os_) == _rsum(lambda a: z3.If(to_real(rates.f((a,))) != 0, term(a), z3.RealVal(0)), n0) - E
             yield 'test distribution is an array', z3.BoolVal(isinstance(td, Arr) and td.ndim == 1)
             if isinstance(td, Arr):
                 yield 'one entry per synthetic catalog', to_z3(td.shape[0]) == J
